@@ -324,6 +324,14 @@ P_Count(h, n) ==
     /\ bad' = bad \cup Flag(n <= CountBound(h), "Reclaimed")
     /\ UNCHANGED <<att, lsn, addr, acc, rd, eof, wclosed, hv, aborted, tainted, quiet, expl>>
 
+\* clause Stall, overdue form: every hold was released, more than twice the maximum latency plus six
+\* steps have passed, and Sim::links still shows segments of the connections cs in flight.  On a
+\* connection no partition touched and that was closed gracefully (if at all) owed bytes may not
+\* stay on the link for ever.
+P_Overdue(cs) ==
+    /\ bad' = bad \cup Flag(~\E c \in cs : c \in Conns /\ Clean(c) /\ (Owed(<<c, 1>>) \/ Owed(<<c, 2>>)), "Stall")
+    /\ UNCHANGED <<att, lsn, addr, acc, rd, eof, wclosed, hv, aborted, tainted, quiet, expl>>
+
 \* an observation that no clause permits at all (trace validation only)
 P_Flag(name) ==
     /\ bad' = bad \cup {name}
